@@ -1,5 +1,5 @@
-(* Model of tls_listener.rs: extract_client_random on the peeked bytes (tls-parser's record and
-   ClientHello layout for a record whose first handshake message is a ClientHello),
+(* Model of tls_listener.rs: extract_client_random on the peeked bytes (the handshake byte stream
+   reassembled from the leading handshake records),
    read_client_random_and_wrap_stream (peek loop with the 16 KiB limit and 1 KiB reads) and
    PrebufferedTcpStream::poll_read (replay of the peeked bytes). *)
 From Coq Require Import List NArith Bool.
@@ -8,50 +8,41 @@ Import ListNotations.
 Open Scope N_scope.
 
 Inductive extraction := XFound (r : list N) | XNeedMore | XNotFound
-                      | XOther.   (* a handshake record that does not start with a ClientHello: not modelled *)
+                      | XOther.   (* (not produced any more: kept for the engines' output code) *)
 
 Definition MAX_RECORD_LEN : N := 16640.   (* tls-parser: (1 << 14) + 256 *)
 
 Definition nthN (l : list N) (i : N) : N := nth (N.to_nat i) l 0.
 
-(* parse_tls_handshake_client_hello inside exactly [body] (the handshake message body) *)
-Definition hello_ok (body : list N) : bool :=
-  (34 <=? lenN body) &&
-  let sidlen := nthN body 34 in
-  (35 <=? lenN body) && (sidlen <=? 32) &&
-  let p1 := 35 + sidlen in
-  (p1 + 2 <=? lenN body) &&
-  let clen := be (takeN 2 (dropN p1 body)) in
-  let p2 := p1 + 2 in
-  (clen mod 2 =? 0) && (p2 + clen <=? lenN body) &&
-  let p3 := p2 + clen in
-  (p3 + 1 <=? lenN body) &&
-  let complen := nthN body p3 in
-  (p3 + 1 + complen <=? lenN body).
+(* extract_client_random: the ClientHello is the first handshake message of the connection and may be spread over several
+   TLS records; its first 38 bytes (type, length, legacy version, random) are gathered from the fragments of the leading
+   handshake records, whatever the record boundaries. *)
+Definition NEEDED : N := 38.
 
-(* the record fragment: many1(complete(handshake message)) must accept its first message *)
-Definition decide_fragment (frag : list N) : extraction :=
-  if lenN frag <? 4 then XNotFound
-  else
-    let mtype := nthN frag 0 in
-    let mlen := be (takeN 3 (dropN 1 frag)) in
-    if lenN frag <? 4 + mlen then XNotFound
-    else if mtype =? 1 then
-      let body := takeN mlen (dropN 4 frag) in
-      if hello_ok body then XFound (takeN 32 (dropN 2 body)) else XNotFound
-    else XOther.
+Inductive rec_step := RDone (e : extraction) | RNext (rest acc : list N).
 
-Definition extract_c (data : list N) : extraction :=
-  if lenN data <? 5 then XNeedMore
+(* one round of the loop: the record at the head of [data]; [acc] = the message bytes gathered so far *)
+Definition record_step (data acc : list N) : rec_step :=
+  if lenN data <? 5 then RDone XNeedMore
   else
-    let rtype := nthN data 0 in
     let rlen := be (takeN 2 (dropN 3 data)) in
-    if MAX_RECORD_LEN <? rlen then XNotFound
-    else if lenN data <? 5 + rlen then XNeedMore
-    else if rtype =? 22 then decide_fragment (takeN rlen (dropN 5 data))
-    else if (rtype =? 20) || (rtype =? 21) || (rtype =? 23) then XNotFound
-    else if rtype =? 24 then XOther
-    else XNotFound.
+    if negb (nthN data 0 =? 22) || (rlen =? 0) || (MAX_RECORD_LEN <? rlen) then RDone XNotFound
+    else
+      let frag := takeN rlen (dropN 5 data) in
+      let acc' := takeN NEEDED (acc ++ frag) in          (* message[have..have + take] = fragment[..take] *)
+      if (0 <? lenN acc') && negb (nthN acc' 0 =? 1) then RDone XNotFound
+      else if NEEDED <=? lenN acc' then RDone (XFound (takeN 32 (dropN 6 acc')))
+      else if lenN frag <? rlen then RDone XNeedMore
+      else RNext (dropN (5 + rlen) data) acc'.
+
+Fixpoint reassemble (fuel : nat) (data acc : list N) : extraction :=
+  match fuel with
+  | O => XNeedMore
+  | S f => match record_step data acc with RDone e => e | RNext rest acc' => reassemble f rest acc' end
+  end.
+
+(* every further round consumes at least six bytes: the fuel is never exhausted (reassemble_fuel) *)
+Definition extract_c (data : list N) : extraction := reassemble (S (length data)) data [].
 
 (* one read of at most [limit] bytes from what has arrived *)
 Definition take_readN (limit : N) (arrivals : list (list N)) : list N * list (list N) :=
